@@ -278,16 +278,7 @@ def run(ctx):
                        f'{[("node." + f + ("[]." + sub if sub else "")) for f, sub in s.stores] or "nothing"}; a node returned by the '
                        f'visitor must replace exactly the visited node', file=w.file, line=s.call.lineno)
             # the visit is unconditional: the only conditions it may stand under are presence tests of the visited field itself and the class test of the branch
-            from ..cfg import dominating_conditions
-
-            def presence(t, pol):
-                tx = norm(t)
-                fld = f'{w.node}.{s.field}'
-                if pol:
-                    return tx in (fld, f'{fld} is not None', f'len({fld}) > 0', f'len({fld}) != 0', f"hasattr({w.node}, '{s.field}')") or (
-                        isinstance(t, ast.Call) and dotted(t.func) == 'isinstance' and t.args and norm(t.args[0]) == w.node)
-                return tx in (f'{fld} is None', f'len({fld}) == 0') or (isinstance(t, ast.Compare) and tx == f'{fld} is None')
-            extra = [(t, pol) for t, pol in dominating_conditions(s.call, stop=b.ifnode) if not presence(t, pol)]
+            extra = s.extra_conditions
             ctx.ob('C13.visit-unconditional', cons, not extra,
                    f'{cons}: the visit happens only when `{"not " if extra and not extra[0][1] else ""}{norm(extra[0][0]) if extra else ""}` holds: under another condition the '
                    f'children in this field are skipped, so a visitor (table discovery, qualifier rewrite, placeholder binding) never sees them',
